@@ -28,6 +28,7 @@ type c03Sc struct {
 	Envs []c03Env `json:"envs"`
 	// TwoLoaders: the templates come from a first loader; a second loader has OTHER content under the same names
 	// (registration order decides, whatever the engine does internally to find them)
+	Flood      int `json:"flood,omitempty"`       // so many unrelated templates are registered on the engine as well (bounded tables)
 	TwoLoaders int `json:"two_loaders,omitempty"` // 1: two ArrayLoaders; 2: one FileSystemLoader with two search paths on the simulated disk
 }
 
@@ -263,6 +264,7 @@ func (propC03) Gen(seed uint64, ex map[string]bool) interface{} {
 	r := newR(seed)
 	sc := &c03Sc{Prog: genC03Program(r, ex)}
 	sc.TwoLoaders = pick(r, []int{0, 0, 0, 0, 0, 0, 0, 1, 1, 2})
+	sc.Flood = pick(r, []int{0, 0, 0, 0, 0, 0, 0, 0, 0, 0, 0, 140, 300, 600})
 	base := c03Env{Dim: "baseline", MapOrder: simrt.OrderSorted, Clock: 1_700_000_000e9, Pool: simrt.PoolLIFO, Seed: simrt.Mix(seed, 9), Addr: -1}
 	sc.Envs = append(sc.Envs, base)
 	add := func(dim string, f func(e *c03Env)) {
@@ -301,7 +303,7 @@ func (propC03) Gen(seed uint64, ex map[string]bool) interface{} {
 // c03Render renders the program twice on one engine in one environment (the second render runs on recycled
 // objects and warm process-wide caches) and returns both observations. The renders run as a task of the seeded
 // scheduler, so goroutines the library might start are interleaved by the environment's seed, not by the machine.
-func c03Render(p *Program, env c03Env, twoLoaders int) (Obs, Obs, *simrt.World) {
+func c03Render(p *Program, env c03Env, twoLoaders, flood int) (Obs, Obs, *simrt.World) {
 	w := simrt.Begin(simrt.Config{Seed: env.Seed, PoolPolicy: env.Pool, MapOrder: env.MapOrder, MapRot: env.Rot, ClockStart: env.Clock, ClockStep: 1e6, AddrReusePct: env.Addr, PreemptDen: 3})
 	defer simrt.End()
 	twig.SetDebugWriter(io.Discard)
@@ -332,6 +334,9 @@ func c03Render(p *Program, env c03Env, twoLoaders int) (Obs, Obs, *simrt.World) 
 			e.RegisterString(t.Name, t.Src())
 		}
 	}
+	for k := 0; k < flood; k++ {
+		e.RegisterString(fmt.Sprintf("zflood_%d", k), "F")
+	}
 	ctx := BuildCtx(p.Ctx, env.Build)
 	var o1, o2 Obs
 	if ab := w.RunOne(func() {
@@ -349,7 +354,7 @@ func (propC03) Run(scI interface{}) *Outcome {
 	var base Obs
 	fp := uint64(0xcbf29ce484222325)
 	for i, env := range sc.Envs {
-		first, got, w := c03Render(sc.Prog, env, sc.TwoLoaders)
+		first, got, w := c03Render(sc.Prog, env, sc.TwoLoaders, sc.Flood)
 		for j := range o.Stats {
 			o.Stats[j] += w.Stat[j]
 		}
